@@ -446,6 +446,11 @@ class Runtime:
     def or_(self, *ths):
         return self._junction(ths, False)
 
+    def plain_sequence(self, v):
+        """iterating it again / further has no side effect and its elements do not depend on the loop body"""
+        from .values import SBytes, SBA
+        return isinstance(v, (list, tuple, range, str, bytes, bytearray, dict, frozenset, set, SBytes, SBA)) or getattr(v, 'sx_is_str', False)
+
     def not_(self, v):
         if isinstance(v, Lookup):
             v = v.materialise()
